@@ -171,7 +171,7 @@ def run_unit(name, template, rlimit=30, canaries=True, threads=None, generator=N
 
     with cf.ThreadPoolExecutor(max_workers=1 + len(can_paths)) as ex:
         main_f = ex.submit(verus.run, gen, rlimit, None, threads)
-        can_f = {v: ex.submit(verus.run, p, rlimit, None, threads, 900, 200) for v, (p, _) in can_paths.items()}
+        can_f = {v: ex.submit(verus.run, p, rlimit, None, threads, 900, 0) for v, (p, _) in can_paths.items()}
         vr = main_f.result()
         cres = {v: f.result() for v, f in can_f.items()}
 
@@ -189,21 +189,31 @@ def run_unit(name, template, rlimit=30, canaries=True, threads=None, generator=N
             return {(short_kind(d.message), lines[d.primary_line() - 1].text.strip() if d.primary_line() and d.primary_line() <= len(lines) else "")
                     for d in v.semantic}
         keep = _ids(vr)
-        for seed in (17, 4242):
-            retries += 1
-            v2 = verus.run(gen, rlimit * 2, ["--smt-option", "smt.random_seed=%d" % seed], threads)
-            if v2.status == "ok":
-                vr = v2
-                keep = set()
-                break
-            if v2.status == "violation":
-                keep &= _ids(v2)
+        failed_fns = [f for f, st in vr.functions.items() if st.get("success") is False]
+        # re-verify only the failing functions (one process each, in parallel), with another solver seed
+        def _retry(fn):
+            short = fn.split("::")[-1]
+            return verus.run(gen, rlimit * 2, ["--smt-option", "smt.random_seed=17", "--verify-root", "--verify-function", "*::" + short if False else short], threads)
+        retries = 1
+        if failed_fns and len(failed_fns) <= 6:
+            with cf.ThreadPoolExecutor(max_workers=len(failed_fns)) as ex2:
+                rs = list(ex2.map(_retry, failed_fns))
+            if all(r2.status in ("ok", "violation") for r2 in rs):
+                k2 = set()
+                for r2 in rs:
+                    k2 |= _ids(r2)
+                keep &= k2
                 if not keep:
-                    # every obligation was proved under some seed, but never all in one run: undecided
-                    vr.status = "undecided"
-                    vr.reason = "unstable proof: failing obligations differ between solver seeds"
+                    # every failing obligation was proved under the other seed
+                    vr.status = "undecided" if any(r2.status == "violation" for r2 in rs) else "ok"
+                    vr.reason = "unstable proof: failing obligations differ between solver seeds" if vr.status == "undecided" else ""
                     vr.semantic = []
-                    break
+                    if vr.status == "ok":
+                        vr.verified += vr.errors
+                        vr.errors = 0
+                        for f in failed_fns:
+                            vr.functions[f]["success"] = True
+            # a retry that could not run (ambiguous function name etc.) leaves the first verdict standing
         if vr.status == "violation":
             vr.semantic = [d for d in vr.semantic if (short_kind(d.message), lines[d.primary_line() - 1].text.strip() if d.primary_line() and d.primary_line() <= len(lines) else "") in keep]
     res.retries = retries
